@@ -58,6 +58,8 @@ pub struct Cfg {
     /// refine the canonical key by the one-step behaviour signature (small configurations only: every
     /// key computation costs one execution per event)
     pub refine: bool,
+    /// depth of the behaviour signature (1 unless set; 2 costs |events|^2 executions per key)
+    pub refine_depth: u8,
     /// collect a hash of every transition projected on feature-independent observations (C16)
     pub digest: Option<std::sync::Arc<std::sync::Mutex<std::collections::HashSet<u64>>>>,
 }
@@ -692,7 +694,7 @@ impl<C: Autocomplete + Help> Model for SessModel<C> {
             k.tcol = 0;
         }
         if self.cfg.refine {
-            k.sig = behaviour_sig::<C>(s, &self.cfg.events, self.cfg.mon.term || self.cfg.mon.framing);
+            k.sig = behaviour_sig::<C>(s, &self.cfg.events, self.cfg.mon.term || self.cfg.mon.framing, self.cfg.refine_depth.max(1));
         }
         k
     }
